@@ -64,7 +64,7 @@ Proof.
   rewrite slowest_of_eq, combine_map. fold (with_dur c obs).
   set (size := mode_size (s_mode (spec_state c init pre))).
   assert (Hsz : size <> 0) by (apply size_nonzero; assumption).
-  assert (Hic : c_input_counts c && (size =? 0) = false).
+  assert (Hic : qany (c_input_counts c) && (size =? 0) = false).
   { apply N.eqb_neq in Hsz. rewrite Hsz. apply Bool.andb_false_r. }
   assert (Hel : forall e, exists el,
      (if c_skip c then Ok (sat_add 128 e (N.max (slowest_of c obs) min_progress_picos))
